@@ -1077,30 +1077,30 @@ theorem runCanary_noreq (c0 c' : Ctx) (err : Bool) (h : runCanary c0 = .ok c' er
           · exact stateStep_noreq _ _ _ _ _ h hn3
 
 theorem prStage3_next (c c' : Ctx) (d e : Bool) (h : prStage3 c = some (c', d, e)) :
-    c'.sub.curIdx = c.sub.curIdx ∧ c'.sub.nextIdx = c.sub.nextIdx := by
+    c'.sub.curIdx = c.sub.curIdx ∧ c'.sub.nextIdx = c.sub.nextIdx ∧ c'.sub.state = c.sub.state := by
   unfold prStage3 at h
   split at h
   · cases h
   · rename_i c1 _ _ hc
-    obtain ⟨a, _, b, _⟩ := callTM_sub _ _ _ _ _ _ hc
-    split at h <;> (cases h; exact ⟨a, b⟩)
+    obtain ⟨a, st, b, _⟩ := callTM_sub _ _ _ _ _ _ hc
+    split at h <;> (cases h; exact ⟨a, b, st⟩)
 
 theorem prStage2_next (c c' : Ctx) (d e : Bool) (h : prStage2 c = some (c', d, e)) :
-    c'.sub.curIdx = c.sub.curIdx ∧ c'.sub.nextIdx = c.sub.nextIdx := by
+    c'.sub.curIdx = c.sub.curIdx ∧ c'.sub.nextIdx = c.sub.nextIdx ∧ c'.sub.state = c.sub.state := by
   unfold prStage2 at h
   dsimp only at h
   split at h
-  · cases h; exact ⟨rfl, rfl⟩
+  · cases h; exact ⟨rfl, rfl, rfl⟩
   · have := prStage3_next _ _ _ _ h
     exact this
 
 theorem reset_next (c c' : Ctx) (d e : Bool) (h : doProgressingReset c = some (c', d, e)) :
-    c'.sub.curIdx = c.sub.curIdx ∧ c'.sub.nextIdx = c.sub.nextIdx := by
-  have hcur : (prCursor c).sub.curIdx = c.sub.curIdx ∧ (prCursor c).sub.nextIdx = c.sub.nextIdx := by
-    unfold prCursor; split <;> exact ⟨rfl, rfl⟩
+    c'.sub.curIdx = c.sub.curIdx ∧ c'.sub.nextIdx = c.sub.nextIdx ∧ c'.sub.state = c.sub.state := by
+  have hcur : (prCursor c).sub.curIdx = c.sub.curIdx ∧ (prCursor c).sub.nextIdx = c.sub.nextIdx ∧ (prCursor c).sub.state = c.sub.state := by
+    unfold prCursor; split <;> exact ⟨rfl, rfl, rfl⟩
   unfold doProgressingReset at h
   split at h
-  · cases h; exact ⟨rfl, rfl⟩
+  · cases h; exact ⟨rfl, rfl, rfl⟩
   · split at h
     · cases h
     · dsimp only at h
@@ -1108,15 +1108,15 @@ theorem reset_next (c c' : Ctx) (d e : Bool) (h : doProgressingReset c = some (c
       · split at h
         · cases h
         · rename_i c2 rt er hc
-          obtain ⟨a, _, b, _⟩ := callTM_sub _ _ _ _ _ _ hc
+          obtain ⟨a, st, b, _⟩ := callTM_sub _ _ _ _ _ _ hc
           split at h
-          · cases h; exact ⟨a.trans hcur.1, b.trans hcur.2⟩
-          · obtain ⟨x, y⟩ := prStage2_next _ _ _ _ h
-            exact ⟨x.trans (a.trans hcur.1), y.trans (b.trans hcur.2)⟩
-      · obtain ⟨x, y⟩ := prStage2_next _ _ _ _ h
-        exact ⟨x.trans hcur.1, y.trans hcur.2⟩
-      · obtain ⟨x, y⟩ := prStage3_next _ _ _ _ h
-        exact ⟨x.trans hcur.1, y.trans hcur.2⟩
+          · cases h; exact ⟨a.trans hcur.1, b.trans hcur.2.1, st.trans hcur.2.2⟩
+          · obtain ⟨x, y, z⟩ := prStage2_next _ _ _ _ h
+            exact ⟨x.trans (a.trans hcur.1), y.trans (b.trans hcur.2.1), z.trans (st.trans hcur.2.2)⟩
+      · obtain ⟨x, y, z⟩ := prStage2_next _ _ _ _ h
+        exact ⟨x.trans hcur.1, y.trans hcur.2.1, z.trans hcur.2.2⟩
+      · obtain ⟨x, y, z⟩ := prStage3_next _ _ _ _ h
+        exact ⟨x.trans hcur.1, y.trans hcur.2.1, z.trans hcur.2.2⟩
 
 theorem inRolling_noreq (w : World) (old ns : Rollout) (s : Sub) (wl : WL) (r : StepResult)
     (hns : ns.sub = some s) (hn : NoReq ns s) (h : inRolling w old ns s wl = .val r) :
@@ -1155,7 +1155,7 @@ theorem inRolling_noreq (w : World) (old ns : Rollout) (s : Sub) (wl : WL) (r : 
             · split at h
               · cases h
               · rename_i c d e hreset
-                obtain ⟨a, b⟩ := reset_next _ _ _ _ hreset
+                obtain ⟨a, b, _⟩ := reset_next _ _ _ _ hreset
                 unfold toCtx at a b
                 dsimp only at a b
                 split at h
@@ -1441,3 +1441,237 @@ theorem no_self_jump (w : World) (r : StepResult) (h : reconcile w = .val r) : n
         · exact finBranch w.wl .other false (fun x => { x with phase := .disabled }) (fun x => ⟨rfl, rfl⟩) h
         · exact leafNs _ _ _ _ _ h rfl rfl
   · rfl
+
+/-! ### C02.i — step index and StepReady are gated (whole reconcile) -/
+
+/-- what the in-rolling dispatch can do to (step index, sub-state) while the reason stays InRolling -/
+theorem inRolling_gates (w : World) (old ns : Rollout) (s os : Sub) (wl : WL) (r : StepResult) (s' : Sub)
+    (hold : old.sub = some os) (hcore : subCore s = subCore os) (hns : ns.sub = some s)
+    (h : inRolling w old ns s wl = .val r) (hs' : r.w.ro.sub = some s') (hreason : r.w.ro.reason = ns.reason) :
+    (s'.curIdx ≠ s.curIdx →
+      (s.state = .ready ∧ s'.curIdx = s.curIdx + 1 ∧ s.curIdx < ns.steps.length ∧ NoReq ns s) ∨
+      ¬ NoReq ns s ∨ s.hash = .differs ∨ (wl.inRollback = true ∧ wl.canaryRev ≠ s.canaryRev)) ∧
+    (s'.state = .ready → s.state ≠ .ready → s'.curIdx = s.curIdx → s.state = .paused ∨ s.hash = .differs) := by
+  simp only [subCore, Prod.mk.injEq] at hcore
+  obtain ⟨_, _, _, _, _, hcrev, hhash⟩ := hcore
+  have same : ∀ (P : Prop), s'.curIdx = s.curIdx → s'.state = s.state →
+      (s'.curIdx ≠ s.curIdx → P) ∧ (s'.state = .ready → s.state ≠ .ready → s'.curIdx = s.curIdx → s.state = .paused ∨ s.hash = .differs) :=
+    fun P h1 h2 => ⟨fun hne => absurd h1 hne, fun hr hnr _ => absurd (h2 ▸ hr) hnr⟩
+  unfold inRolling at h
+  dsimp only at h
+  rw [hold] at h
+  dsimp only at h
+  split at h
+  · cases h; dsimp only at hs'; cases hs'; exact same _ rfl rfl
+  · split at h
+    · cases h; dsimp only at hs'; rw [hns] at hs'; cases hs'; exact same _ rfl rfl
+    · split at h
+      · rename_i hb
+        cases h; dsimp only at hs'; cases hs'
+        exact ⟨fun _ => Or.inr (Or.inr (Or.inr ⟨hb.1, by rw [hcrev]; exact hb.2.1⟩)), fun hr => by cases hr⟩
+      · split at h
+        · split at h
+          · cases h; dsimp only at hs'; rw [hns] at hs'; cases hs'; exact same _ rfl rfl
+          · split at h
+            · cases h
+            · rename_i c d e hreset
+              obtain ⟨a, _, st⟩ := reset_next _ _ _ _ hreset
+              unfold toCtx at a st
+              dsimp only at a st
+              split at h
+              · cases h; unfold ofCtx at hs'; dsimp only at hs'; cases hs'; exact same _ a st
+              · split at h
+                · cases h; unfold ofCtx at hs'; dsimp only at hs'; cases hs'
+                · cases h; unfold ofCtx at hs'; dsimp only at hs'; cases hs'; exact same _ a st
+        · split at h
+          · rename_i hplan
+            have hdiff : s.hash = .differs := by
+              rw [hhash]; cases hh : os.hash <;> simp_all
+            split at h
+            · cases h
+            · split at h
+              · cases h; dsimp only at hs'; cases hs'
+                exact ⟨fun _ => Or.inr (Or.inr (Or.inl hdiff)), fun _ _ _ => Or.inr hdiff⟩
+              · split at h
+                · cases h
+                · cases h; dsimp only at hs'; cases hs'
+                  exact ⟨fun _ => Or.inr (Or.inr (Or.inl hdiff)), fun _ _ _ => Or.inr hdiff⟩
+          · split at h
+            · cases h; dsimp only at hs'; rw [hns] at hs'; cases hs'; exact same _ rfl rfl
+            · split at h
+              · cases h
+              · rename_i c e hrun
+                cases h
+                unfold ofCtx at hs'; dsimp only at hs'; cases hs'
+                obtain ⟨g1, _, g3⟩ := runCanary_gated _ _ _ hrun
+                unfold toCtx at g1 g3
+                dsimp only at g1 g3
+                -- the status the release manager started from: `s` with a corrected next-step index
+                constructor
+                · intro hne
+                  have hcur : (if s.nextIdx ≤ 0 ∨ s.nextIdx > (ns.steps.length : Int) then
+                      { s with nextIdx := nextBatchIndex ns.steps.length s.curIdx } else s).curIdx = s.curIdx := by split <;> rfl
+                  have hst : (if s.nextIdx ≤ 0 ∨ s.nextIdx > (ns.steps.length : Int) then
+                      { s with nextIdx := nextBatchIndex ns.steps.length s.curIdx } else s).state = s.state := by split <;> rfl
+                  rcases g1 (by rw [hcur]; exact hne) with ⟨a1, a2, a3, a4⟩ | ⟨b1, _⟩
+                  · left
+                    refine ⟨hst ▸ a1, by rw [a2, hcur], by rw [← hcur]; exact a3, ?_⟩
+                    intro ⟨q1, q2, q3⟩
+                    apply a4
+                    unfold JumpReq
+                    rw [if_neg (by omega)]
+                    exact ⟨q1, q2⟩
+                  · right; left
+                    intro hno
+                    apply hno
+                    unfold JumpReq at b1
+                    split at b1
+                    · exact absurd rfl b1.1
+                    · rename_i hleg
+                      exact ⟨b1.1, b1.2, by omega⟩
+                · intro hr hnr _
+                  have hst : (if s.nextIdx ≤ 0 ∨ s.nextIdx > (ns.steps.length : Int) then
+                      { s with nextIdx := nextBatchIndex ns.steps.length s.curIdx } else s).state = s.state := by split <;> rfl
+                  exact Or.inl (hst ▸ (g3 hr (by rw [hst]; exact hnr)).1)
+
+/-- a rolling, not deleted rollout whose workload status is inconsistent: the reconcile only waits -/
+theorem reconcile_inconsistent (w : World) (wl : WL) (r : StepResult) (hdel : w.ro.deleting = false) (hwl : w.wl = some wl)
+    (hc : wl.consistent = false) (h : reconcile w = .val r) : r.w.ro.sub = w.ro.sub := by
+  have hfr := hf_frame w.ro
+  unfold reconcile at h
+  dsimp only at h
+  have : calculateStatus (handleFinalizer w.ro).1 w.wl = none := by
+    unfold calculateStatus
+    rw [hfr]; dsimp only
+    rw [if_neg (by simp [hdel]), hwl]
+    dsimp only
+    rw [if_pos (by simp [hc])]
+  rw [this] at h
+  cases h
+  dsimp only
+  rw [hfr]
+
+theorem advance_and_ready_gated (w : World) (r : StepResult) (h : reconcile w = .val r) :
+    advanceGated w r = true ∧ readyGated w r = true := by
+  -- both oracles only speak about a rolling rollout that has a sub-status before and after
+  cases hos : w.ro.sub with
+  | none => exact ⟨by unfold advanceGated; rw [hos], by unfold readyGated; rw [hos]⟩
+  | some os =>
+  cases hs' : r.w.ro.sub with
+  | none => exact ⟨by unfold advanceGated; rw [hos, hs'], by unfold readyGated; rw [hos, hs']⟩
+  | some s' =>
+  by_cases hin : inRollingNow w.ro = true ∧ r.w.ro.reason = .inRolling
+  case neg =>
+    constructor
+    · unfold advanceGated; rw [hos, hs']
+      cases hw : w.wl with
+      | none => rfl
+      | some wl => dsimp only; rw [if_neg (fun hh => hin ⟨hh.1, hh.2.1⟩)]
+    · unfold readyGated; rw [hos, hs']; dsimp only; rw [if_neg (fun hh => hin ⟨hh.1, hh.2.1⟩)]
+  case pos =>
+    obtain ⟨hnow, hrr⟩ := hin
+    have hnow' := hnow
+    unfold inRollingNow at hnow'
+    simp only [Bool.and_eq_true, decide_eq_true_eq, Bool.not_eq_true'] at hnow'
+    obtain ⟨⟨hph, hr⟩, hndel⟩ := hnow'
+    -- the facts about (step index, sub-state)
+    have key : ∀ wl, w.wl = some wl →
+        (s'.curIdx ≠ os.curIdx →
+          (os.state = .ready ∧ s'.curIdx = os.curIdx + 1 ∧ os.curIdx < w.ro.steps.length ∧ NoReq w.ro os) ∨
+          ¬ NoReq w.ro os ∨ os.hash = .differs ∨ (wl.inRollback = true ∧ wl.canaryRev ≠ os.canaryRev)) ∧
+        (s'.state = .ready → os.state ≠ .ready → s'.curIdx = os.curIdx → os.state = .paused ∨ os.hash = .differs) := by
+      intro wl hwl
+      cases hc : wl.consistent with
+      | false =>
+        have := reconcile_inconsistent w wl r hndel hwl hc h
+        rw [hs', hos] at this
+        cases this
+        exact ⟨fun hne => absurd rfl hne, fun hr hnr _ => absurd hr hnr⟩
+      | true =>
+        obtain ⟨ns, s, hsame, hs, hcore, hreason, hrec⟩ := reconcile_inRolling w wl os hph hr hwl hc hos
+        rw [hrec] at h
+        split at h
+        · cases h
+        · rename_i r0 hir
+          split at h
+          · cases h
+            dsimp only at hs'
+            rw [hf_frame w.ro] at hs'
+            dsimp only at hs'
+            rw [hos] at hs'; cases hs'
+            exact ⟨fun hne => absurd rfl hne, fun hr hnr _ => absurd hr hnr⟩
+          · cases h
+            have hr0r : r0.w.ro.reason = ns.reason := by rw [hrr, hreason, hr]
+            obtain ⟨g1, g2⟩ := inRolling_gates w w.ro ns s os wl r0 s' hos hcore hs hir hs' hr0r
+            simp only [subCore, Prod.mk.injEq] at hcore
+            obtain ⟨c1, c2, c3, _, _, c6, c7⟩ := hcore
+            have hno : NoReq ns s ↔ NoReq w.ro os :=
+              ⟨fun hn => hn.congr hsame.1.symm c1.symm c2.symm, fun hn => hn.congr hsame.1 c1 c2⟩
+            rw [c1, c3, c6, c7, hsame.1, hno] at g1
+            rw [c1, c3, c7] at g2
+            exact ⟨g1, g2⟩
+    constructor
+    · unfold advanceGated
+      rw [hos, hs']
+      cases hw : w.wl with
+      | none => rfl
+      | some wl =>
+        dsimp only
+        split
+        · rename_i hc
+          obtain ⟨k1, _⟩ := key wl hw
+          rcases k1 hc.2.2 with ⟨a1, a2, a3, a4⟩ | hb | hd | ⟨e1, e2⟩
+          · have : jumpRequested w.ro os = false := (noReq_iff _ _).mpr a4
+            simp [a1, a2, a3, this]
+          · have : jumpRequested w.ro os = true := by
+              cases hj : jumpRequested w.ro os with
+              | true => rfl
+              | false => exact absurd ((noReq_iff _ _).mp hj) hb
+            simp [this]
+          · simp [hd]
+          · simp [e1, e2]
+        · rfl
+    · unfold readyGated
+      rw [hos, hs']
+      dsimp only
+      split
+      · rename_i hc
+        cases hw : w.wl with
+        | none =>
+          -- without a workload the reconcile of a rolling rollout returns the new status unchanged
+          exfalso
+          have hfr := hf_frame w.ro
+          unfold reconcile at h
+          dsimp only at h
+          split at h
+          · cases h
+            dsimp only at hs'; rw [hfr] at hs'; dsimp only at hs'; rw [hos] at hs'; cases hs'
+            exact hc.2.2.2.1 hc.2.2.1
+          · rename_i ns hcs
+            rw [hph] at h
+            dsimp only at h
+            rw [hw] at h
+            dsimp only at h
+            cases h
+            dsimp only at hs'
+            -- calculateStatus without a workload clears the sub-status or keeps it
+            rw [hw] at hcs
+            unfold calculateStatus at hcs
+            rw [hfr] at hcs; dsimp only at hcs
+            rw [if_neg (by simp [hndel])] at hcs
+            try dsimp only at hcs
+            split at hcs
+            · cases hcs; cases hs'
+            · cases hcs
+              obtain ⟨_, d2⟩ := csDisable_same { w.ro with hasFinalizer := (handleFinalizer w.ro).1.hasFinalizer }
+              obtain ⟨_, i2⟩ := csInitial_same (csDisable { w.ro with hasFinalizer := (handleFinalizer w.ro).1.hasFinalizer })
+              rw [i2, d2] at hs'
+              dsimp only at hs'
+              rw [hos] at hs'; cases hs'
+              exact hc.2.2.2.1 hc.2.2.1
+        | some wl =>
+          obtain ⟨_, k2⟩ := key wl hw
+          rcases k2 hc.2.2.1 hc.2.2.2.1 hc.2.2.2.2 with hp | hd
+          · simp [hp]
+          · simp [hd]
+      · rfl
